@@ -136,6 +136,11 @@ struct Out {
 }
 
 fn run_attack(ctx: &mut Ctx, kind: Kind, stage: u64, bytes: Vec<u8>, what: String, close_after: bool) {
+    run_attack_side(ctx, kind, stage, bytes, what, close_after, false)
+}
+
+/// `connecting`: the attacker sits behind a listener the victim socket connects to
+fn run_attack_side(ctx: &mut Ctx, kind: Kind, stage: u64, bytes: Vec<u8>, what: String, close_after: bool, connecting: bool) {
     let out = Rc::new(RefCell::new(Out { healthy_sent: 0, healthy_got: 0, app_errors: 0, done: false, attack_len: bytes.len(), max_req: 0, live: 0, send_ok: 0, send_err: 0 }));
     let o2 = out.clone();
     let peer_type = kind.peers()[0];
@@ -202,7 +207,6 @@ fn run_attack(ctx: &mut Ctx, kind: Kind, stage: u64, bytes: Vec<u8>, what: Strin
         }
         exchange(&mut sock, &mut healthy, kind, 0, hmsg(0), &o2).await;
         // the attacker
-        let mut attacker = RawPeer::connect(&ep).expect("connect");
         let mut prefix = Vec::new();
         if stage >= 1 {
             prefix.extend(rc::greeting_default());
@@ -210,24 +214,55 @@ fn run_attack(ctx: &mut Ctx, kind: Kind, stage: u64, bytes: Vec<u8>, what: Strin
         if stage >= 2 {
             prefix.extend(rc::ready_for(peer_type, Some(b"attacker")));
         }
-        if !prefix.is_empty() {
-            let _ = attacker.send(&prefix).await;
-            if stage >= 2 {
-                rt::task::idle().await;
-            }
-        }
-        oracle::alloc_mark();
-        let _ = attacker.send(&bytes).await;
-        rt::task::idle().await;
-        // give every reading path a chance: receiving sockets parse inside recv
-        exchange(&mut sock, &mut healthy, kind, 1, hmsg(1), &o2).await;
-        if close_after {
-            attacker.close();
+        let mut listener_keep = None;
+        if connecting {
+            // the victim connects out; the attacker accepts and plays its bytes on its own task
+            let (l, lep) = crate::world::RawListener::bind("tcp://127.0.0.1:0").expect("listen");
+            let (prefix2, bytes2) = (prefix.clone(), bytes.clone());
+            let acc = rt::task::spawn_local("attacker-acceptor", async move {
+                let mut p = l.accept().await.expect("accept");
+                let _ = p.send(&prefix2).await;
+                let _ = p.send(&bytes2).await;
+                if close_after {
+                    for _ in 0..3 {
+                        rt::task::yield_now().await;
+                    }
+                    p.close();
+                    (None, l)
+                } else {
+                    (Some(p), l)
+                }
+            });
+            oracle::alloc_mark();
+            // connect() returns when the handshake completes or fails; with a stalling attacker
+            // it never does, so it is abandoned once the world is quiet
+            let _ = rt::future::or_idle(sock.connect(&lep)).await;
+            let (p, l) = acc.await.expect("acceptor");
+            listener_keep = Some((p, l));
             rt::task::idle().await;
+            exchange(&mut sock, &mut healthy, kind, 1, hmsg(1), &o2).await;
             exchange(&mut sock, &mut healthy, kind, 2, hmsg(2), &o2).await;
         } else {
-            exchange(&mut sock, &mut healthy, kind, 2, hmsg(2), &o2).await;
-            drop(attacker);
+            let mut attacker = RawPeer::connect(&ep).expect("connect");
+            if !prefix.is_empty() {
+                let _ = attacker.send(&prefix).await;
+                if stage >= 2 {
+                    rt::task::idle().await;
+                }
+            }
+            oracle::alloc_mark();
+            let _ = attacker.send(&bytes).await;
+            rt::task::idle().await;
+            // give every reading path a chance: receiving sockets parse inside recv
+            exchange(&mut sock, &mut healthy, kind, 1, hmsg(1), &o2).await;
+            if close_after {
+                attacker.close();
+                rt::task::idle().await;
+                exchange(&mut sock, &mut healthy, kind, 2, hmsg(2), &o2).await;
+            } else {
+                exchange(&mut sock, &mut healthy, kind, 2, hmsg(2), &o2).await;
+                drop(attacker);
+            }
         }
         let (live, _peak, maxreq) = oracle::alloc_stats();
         oracle::alloc_stop();
@@ -240,11 +275,12 @@ fn run_attack(ctx: &mut Ctx, kind: Kind, stage: u64, bytes: Vec<u8>, what: Strin
         world::park().await;
         drop(sock);
         drop(healthy);
+        drop(listener_keep);
     });
     let end = ctx.sim.run(400_000);
     oracle::alloc_stop();
     let o = out.borrow();
-    let tag = format!("{} attacked at stage {} with {} ({} bytes: {})", kind.name(), ["first bytes", "after greeting", "after handshake"][stage as usize], what, o.attack_len, shown);
+    let tag = format!("{}{} attacked at stage {} with {} ({} bytes: {})", kind.name(), if connecting { " (connecting out to the attacker)" } else { "" }, ["first bytes", "after greeting", "after handshake"][stage as usize], what, o.attack_len, shown);
     if end == rt::RunEnd::Budget {
         ctx.violation("no_quiescence", format!("{tag}: the socket spins"));
     }
@@ -278,8 +314,10 @@ fn catalogue(ctx: &mut Ctx) {
     }
     let (bytes, what) = attack(a, ctx);
     let close_after = (ctx.idx / (27 * NATTACKS)) % 2 == 1;
-    ctx.out.extra_shape = ctx.idx % (27 * NATTACKS);
-    run_attack(ctx, kind, stage, bytes, what.to_string(), close_after);
+    // every fourth pass over the grid puts the attacker behind a listener the victim connects to
+    let connecting = (ctx.idx / (27 * NATTACKS)) % 4 >= 2;
+    ctx.out.extra_shape = ctx.idx % (27 * NATTACKS) + if connecting { 1 << 20 } else { 0 };
+    run_attack_side(ctx, kind, stage, bytes, what.to_string(), close_after, connecting);
 }
 
 fn alphabet(ctx: &mut Ctx) {
@@ -321,7 +359,9 @@ fn mutated(ctx: &mut Ctx) {
             _ => s.truncate(p.max(1)),
         }
     }
-    run_attack(ctx, kind, 1, s, "mutated valid stream".into(), ctx.plan_bool());
+    let close_after = ctx.plan_bool();
+    let connecting = ctx.plan(4) == 0;
+    run_attack_side(ctx, kind, 1, s, "mutated valid stream".into(), close_after, connecting);
 }
 
 pub fn def() -> PropDef {
@@ -331,7 +371,7 @@ pub fn def() -> PropDef {
         rule: "catalogue: the case index enumerates socket kind (9) x stage {first bytes, after a valid greeting, after a valid handshake} x 24 structure-aware attacks (truncated/oversized commands, property lengths beyond the frame, non-UTF-8 names, 64-bit sizes 2^31..2^64-1 on message and command frames, thousands of MORE frames in one segment, bad signature/version/mechanism, reserved flags, random bytes), first undisturbed then under drawn transport/schedule, with and without a closing attacker; alphabet: all 19607 strings of length <= 5 over {00,01,02,04,06,05,ff} x {after greeting, after handshake} (thorough: enumerated; quick: sampled); mutated: random mutations of a valid stream; a healthy peer exchanges tagged traffic before and after; oracles: no panic in any task or API call, worker process survives (stack overflow / abort are seen as signals by the driver), largest single allocation after the first hostile byte <= 256 KiB + 64 x bytes sent, healthy traffic still delivered; non-trivial = judgement reached; distinct = distinct (case, plan, schedule, transport)",
         assumptions: &["run thread stack 2 MiB (tokio's worker default) and the library built unoptimised with debug assertions: both are documented parameters of the stack-depth clause", "allocation failure itself is not injected; the size of requests is judged"],
         strata: vec![
-            Stratum { name: "catalogue", quick: 27 * NATTACKS * 4, thorough: 27 * NATTACKS * 200, exhaustive: (true, true), run: catalogue, what: "kind x stage x attack catalogue" },
+            Stratum { name: "catalogue", quick: 27 * NATTACKS * 8, thorough: 27 * NATTACKS * 200, exhaustive: (true, true), run: catalogue, what: "kind x stage x attack catalogue" },
             Stratum { name: "alphabet", quick: 30_000, thorough: NALPHA * 2 * 2, exhaustive: (false, true), run: alphabet, what: "all strings <= 5 over a reduced alphabet of flag/length/command bytes" },
             Stratum { name: "mutated", quick: 100_000, thorough: 1_500_000, exhaustive: (false, false), run: mutated, what: "random mutations of valid streams" },
         ],
